@@ -409,6 +409,18 @@ theorem txn_refines_nested_ok (env : Env) (SX SX' : StoreX) (t : Txn) (hS : Stor
   rw [hrun] at href
   exact ⟨href.1, href.2.1, href.2.2.1⟩
 
+/-- The same WITHOUT the side condition: also when names of the transaction lie below a loose
+reference file (their lock files cannot be created; the transaction goes through only if it needed
+none of them), a transaction that goes through in the extended model is the compare-and-swap on
+the map. -/
+theorem txn_refines_nested_ok_any (env : Env) (SX SX' : StoreX) (t : Txn) (hS : StoreOk SX.base)
+    (hL : NoLocks SX.base) (hT : PlainTxn t) (h : runX env SX t = .ok SX') :
+    Spec.apply env (abs SX.base) t = .ok (abs SX'.base) ∧ StoreOk SX'.base ∧ NoLocks SX'.base := by
+  have hrun := runX_ok_transfer_any env SX SX' t hL h
+  have href := run_refines env SX.base t hS hL hT
+  rw [hrun] at href
+  exact ⟨href.1, href.2.1, href.2.2.1⟩
+
 /-- A failure of `prepare` in the extended model — an expectation, a duplicate name, a held lock,
 a loose reference FILE where the lock file needs a directory — is atomic for EVERY store (any
 locks, any reflogs, any nesting): references, packed-refs, lock files and reflogs are literally
@@ -553,5 +565,18 @@ theorem legacy_snapshot_before_lock_loses_update :
     (Legacy.run addOwn (init []) [1, 0, 0, 0, 1, 1]).log = [0, 1] ∧
     sequential addOwn [] [0, 1] = [([0], 0), ([1], 1)] ∧
     sequential addOwn [] [1, 0] = [([1], 1), ([0], 0)] := by decide
+
+/-- The second place where `prepare_inner` opens the packed-refs transaction (no packed-refs
+update planned, `packed-refs.lock` not a file at the time of the check): it reads the buffer
+first and locks afterwards (`assure_packed_refs_uptodate()` … `buffer_into_transaction`). With
+two such writers — 1 checks and reads, 0 checks, reads, locks and commits, 1 locks and commits —
+writer 0's update is lost, although each of them found the lock free when it looked. By reading
+of the code plus this schedule; the window (between the `is_file()` check and the lock) is a few
+instructions wide and cannot be hit deterministically from outside, so the harness does not
+replay it (see level_note; recorded in known-findings.txt). -/
+theorem window_buffer_before_lock_loses_update :
+    (Window.run addOwn (init []) [1, 0, 0, 0, 1, 1]).file = [([1], 1)] ∧
+    (Window.run addOwn (init []) [1, 0, 0, 0, 1, 1]).log = [0, 1] ∧
+    sequential addOwn [] [0, 1] ≠ [([1], 1)] ∧ sequential addOwn [] [1, 0] ≠ [([1], 1)] := by decide
 
 end GixModel.Props.C16
